@@ -73,6 +73,10 @@ type Ctx struct {
 	Work   string      // scratch dir, wiped at start
 	Replay *ReplayFile // non-nil in replay mode
 
+	// sigFilter, when set, restricts which violation signatures are judged by the running part of a
+	// check (a workload borrowed from another property's check reports only what belongs here)
+	sigFilter func(sig string) bool
+
 	mu         sync.Mutex
 	kf         *kf.File
 	known      map[string]int
@@ -105,6 +109,10 @@ func (c *Ctx) N(quick, thorough int) int {
 func (c *Ctx) Violation(sig, what string, replayCase any) {
 	c.mu.Lock()
 	defer c.mu.Unlock()
+	if c.sigFilter != nil && !c.sigFilter(sig) {
+		c.Ev.Count("not_judged_by_this_property:"+sig, 1)
+		return
+	}
 	if f := c.kf.Open(c.ID, sig); f != nil {
 		c.known[sig]++
 		return
